@@ -19,22 +19,23 @@ Lib == [ M1 |-> {"nonce_flip"},
          M2 |-> {"nonce_flip", "server_nonce_flip", "fingerprint_untrusted", "pq_other", "pq_too_big", "replay_old_respq"},
          M3 |-> {"encrypted_data_flip", "p_q_swapped"},
          M4 |-> {"nonce_flip", "server_nonce_flip", "answer_flip", "answer_forged", "params_fail", "replay_old_params",
-                 "dh_prime_not_prime", "dh_prime_not_safe", "dh_prime_1024", "ga_one", "ga_pm1", "ga_small", "ga_big"},
+                 "dh_prime_not_prime", "dh_prime_not_safe", "dh_prime_1024", "ga_one", "ga_pm1", "ga_small", "ga_big", "ga_2p_plus1", "ga_p_plus_mid", "ga_max2048"},
          M5 |-> {"encrypted_data_flip"},
          M6 |-> {"nonce_flip", "server_nonce_flip", "hash_flip", "gen_retry", "gen_fail", "hash_of_other_key"} ]
 Msgs == <<"M1", "M2", "M3", "M4", "M5", "M6">>
 \* deviations that do not touch anything the client authenticates (the proof-of-work factors): the exchange still completes
 Benign == {"pq_other", "p_q_swapped"}
 \* deviations only an authentic server (holder of the trusted RSA key, who learns new_nonce) can realise
-ServerSide == {"dh_prime_not_prime", "dh_prime_not_safe", "dh_prime_1024", "ga_one", "ga_pm1", "ga_small", "ga_big"}
+ServerSide == {"dh_prime_not_prime", "dh_prime_not_safe", "dh_prime_1024", "ga_one", "ga_pm1", "ga_small", "ga_big", "ga_2p_plus1", "ga_p_plus_mid", "ga_max2048"}
 
 VARIABLES k,         \* next message to deliver (1..7, 7 = finished)
           devs,      \* sequence of [msg, dev]
           client,    \* "run" | "done" | "fail"
           server,    \* "run" | "done" | "fail"
           sameKey,   \* both sides derive the same key so far
-          mode, dc
-pvars == <<k, devs, client, server, sameKey, mode, dc>>
+          mode, dc,
+          prime      \* the honest server's choice of DH group: the well-known 2048-bit prime or another valid safe prime
+pvars == <<k, devs, client, server, sameKey, mode, dc, prime>>
 
 \* what each side does with a (possibly deviated) message; transcribed from the flows
 ClientRejects(m, d) ==
@@ -66,7 +67,7 @@ Deliver(d) ==
              /\ client' = client
      /\ sameKey' = (sameKey /\ (d = "none" \/ d \in Benign))
      /\ k' = k + 1
-  /\ UNCHANGED <<mode, dc>>
+  /\ UNCHANGED <<mode, dc, prime>>
 
 \* ---------------------------------------------------------------- timing layer (C12)
 \* client I/O steps: 1 write M1, 2 read M2, 3 write M3, 4 read M4, 5 write M5, 6 read M6
@@ -84,10 +85,10 @@ Tick == /\ tstate = "run" /\ now < MaxNow /\ ~Expired
         /\ now' = now + 1 /\ UNCHANGED <<tstep, started, stallAt, ctxDeadline, tstate>>
 Fire == /\ tstate = "run" /\ Expired /\ tstate' = "failed" /\ UNCHANGED <<tstep, now, started, stallAt, ctxDeadline>>
 
-vars == <<k, devs, client, server, sameKey, mode, dc, tstep, now, started, stallAt, ctxDeadline, tstate>>
+vars == <<k, devs, client, server, sameKey, mode, dc, prime, tstep, now, started, stallAt, ctxDeadline, tstate>>
 
 Init == /\ k = 1 /\ devs = <<>> /\ client = "run" /\ server = "run" /\ sameKey = TRUE
-        /\ mode \in {"perm", "temp"} /\ dc \in {2, -2, 10002}
+        /\ mode \in {"perm", "temp"} /\ dc \in {2, -2, 10002} /\ prime \in {"builtin", "group14"}
         /\ TInit
 Next == \/ (\E d \in {"none"} \cup UNION {Lib[Msgs[j]] : j \in 1..6} : Deliver(d)) /\ UNCHANGED tvars
         \/ (Progress \/ Tick \/ Fire) /\ UNCHANGED pvars
@@ -102,15 +103,15 @@ NoCompletionUnderAttack == client = "done" => (OnlyBenign /\ sameKey)
 BoundedStrict == tstate = "run" => (now <= started + T /\ (ctxDeadline # -1 => now <= ctxDeadline))
 
 \* ---------------------------------------------------------------- scripts for the real code
-Strategy == [mode |-> mode, dc |-> dc, devs |-> devs, predicted |-> client]
+Strategy == [mode |-> mode, dc |-> dc, prime |-> prime, devs |-> devs, predicted |-> client]
 StallCase == [kind |-> "stall", step |-> stallAt, timeout_ms |-> T * 100, ctx_deadline_ms |-> IF ctxDeadline = -1 THEN 0 ELSE ctxDeadline * 100,
               mode |-> mode, dc |-> 2, devs |-> <<>>]
 \* the same stall inside a real connection: plain connect, PFS connect (permanent then temporary key), key regeneration
 \* after auth_key_not_found; none of them has a caller deadline around the exchange
 ConnCases == { [kind |-> "connstall", step |-> stallAt, timeout_ms |-> T * 100, pfs |-> p, exch |-> e, regen |-> r]
                : p \in BOOLEAN, e \in {1, 2}, r \in BOOLEAN } 
-DumpConn == (k = 1 /\ tstep = 1 /\ now = 0 /\ dc = 2 /\ mode = "perm" /\ ctxDeadline = -1 /\ stallAt \in {2, 4, 6})
+DumpConn == (k = 1 /\ tstep = 1 /\ now = 0 /\ dc = 2 /\ mode = "perm" /\ prime = "builtin" /\ ctxDeadline = -1 /\ stallAt \in {2, 4, 6})
             => \A cc \in {x \in ConnCases : (x.exch = 2 => x.pfs) /\ (x.regen => ~x.pfs)} : PrintT(ToJson(cc))
-DumpStall == (k = 1 /\ tstep = 1 /\ now = 0 /\ dc = 2) => PrintT(ToJson(StallCase))
+DumpStall == (k = 1 /\ tstep = 1 /\ now = 0 /\ dc = 2 /\ prime = "builtin") => PrintT(ToJson(StallCase))
 DumpStrategy == ((k = 7 \/ client = "fail") /\ tstep = 1 /\ now = 0 /\ stallAt = 1 /\ ctxDeadline = -1) => PrintT(ToJson(Strategy))
 =============================================================================
